@@ -7,7 +7,7 @@
 (*   fails     - some step fails (after none / some changes applied)        *)
 (*   plain     - none of these                                              *)
 EXTENDS History, Json, Randomization
-CONSTANTS OutFile, PerClass
+CONSTANTS OutFile, PerClass, NFiles, NSeqs    \* candidates are drawn from NFiles random files x NSeqs random change sequences
 Pick(n, S) == IF n = 0 \/ Cardinality(S) <= n THEN S ELSE RandomSubset(n, S)
 RuleSeqs == {rs \in UNION {[1..n -> Rules] : n \in 1..MaxChanges} : \A i \in 1..Len(rs) : WellFormedRule(rs[i])}
 RECURSIVE Mids(_, _, _)
@@ -19,11 +19,11 @@ Class(f, rs) ==
   ELSE IF \E i \in 2..Len(rs) : Matches(m[i], rs[i]) /\ ~Matches(f, rs[i]) THEN "dependent"
   ELSE IF \E i \in 2..Len(rs) : ~Matches(m[i], rs[i]) /\ Matches(f, rs[i]) THEN "removed"
   ELSE "plain"
-All == {<<f, rs>> : f \in Files, rs \in RuleSeqs}
+All == {<<f, rs>> : f \in Pick(NFiles, Files), rs \in Pick(NSeqs, RuleSeqs)}
 Rec(x) == [pkg |-> x[1].pkg, body |-> x[1].body, rules |-> x[2], class |-> Class(x[1], x[2])]
 Emit == ndJsonSerialize(OutFile, SetToSeq(UNION {{Rec(x) : x \in Pick(PerClass, {y \in All : Class(y[1], y[2]) = c})} :
                                                     c \in {"dependent", "removed", "fails", "plain"}}))
 VARIABLE emitted
-EmitInit == /\ emitted = Emit /\ file0 = [pkg |-> "p", body |-> <<"a">>] /\ rules = <<>> /\ cur = file0 /\ k = 1 /\ st = "done" /\ log = <<>>
+EmitInit == /\ emitted = Emit /\ file0 = [pkg |-> "p", body |-> <<>>] /\ rules = <<>> /\ cur = file0 /\ k = 1 /\ st = "done" /\ log = <<>>
 EmitSpec == EmitInit /\ [][UNCHANGED <<emitted, vars>>]_<<emitted, vars>>
 ====
